@@ -11,6 +11,7 @@ from typing import Any
 import numpy as np
 
 from .. import games
+from .. import prelude
 from ..core import Sim
 
 LEVEL = "exploration"
@@ -144,6 +145,7 @@ def run(sim: Sim) -> None:
     n = 1 + sim.choose(5, "n")
     N = 2 ** n
     sim.config.update(n=n)
+    prelude.warm_process(sim)
     with sim.guard("C17.operation_raised"):
         g0 = IncompleteCooperativeGame(n)
     handles = [Handle(g0, n, "original")]
